@@ -102,7 +102,6 @@ func c01Lists(a *c01Alphabet, hist []int) (lists [][]string) {
 	return lists
 }
 
-
 type c01Model struct {
 	c *Ctx
 	a *c01Alphabet
